@@ -60,6 +60,7 @@ WANTED = ["absolute_error", "percentage_correct", "percentage_correct_segments",
 ATR = ("atr",)                  # a number of the perceptual metric (α)
 AVEC = VEC(ATR)
 DICTA = ("dicta",)              # the OrderedDict of a transcendental `evaluate`: List (String × PyAl.Score α)
+DICTV = ("dictv",)              # an OrderedDict of numbers and booleans (part `evalglue`): List (String × PyAl.SVal)
 TRPRE = "{α : Type} [Add α] [Sub α] [Mul α] [Div α] [Neg α] (o : Mir.Alignment.TrOps α) "
 
 _ml_lean_type = SI.lean_type    # (melody's extension, installed when translate.melody was imported)
@@ -70,6 +71,8 @@ def lean_type(t):
         return "α"
     if t == DICTA:
         return "(List (String × Mir.PyAl.Score α))"
+    if t == DICTV:
+        return "(List (String × Mir.PyAl.SVal))"
     return _ml_lean_type(t)
 
 
@@ -82,7 +85,7 @@ ML.lean_type = lean_type
 def param_type(fname, text, node, default_none):
     import re
     t = text.strip().lower()
-    if t == "np.ndarray" and not default_none:
+    if re.match(r"^np\.ndarray(, shape=\(\w+,\))?$", t) and not default_none:
         return FVEC
     if re.match(r"^float\b", t) and not re.search(r"array|list|tuple|none|\bor\b", t):
         return OPT(RAT) if default_none else RAT
@@ -104,6 +107,7 @@ class Module(ML.Module):
     modname = "alignment"
     WANT = {"np": "numpy", "collections": "collections"}
     REQUIRED = ("np",)
+    FK_NAMES = ("filter_kwargs",)          # how this module spells mir_eval.util.filter_kwargs
 
     def __init__(self, source, repo):
         ML.Module.__init__(self, source)
@@ -161,7 +165,13 @@ class Body(ML.Body):
         return out
 
     def callee(self, sig):
+        if getattr(sig, "lean_name", None):
+            return sig.lean_name               # an extern bound to a definition of another generated file
         return ident(sig.name) + (" o" if getattr(sig, "atr", False) else "")
+
+    def dict_type(self):
+        """the Lean reading of an OrderedDict created by this function"""
+        return DICTA if self.atr else DICT
 
     # -- statements -----------------------------------------------------------------------------------------------------
     def stmts(self, sts, env, k):
@@ -178,7 +188,7 @@ class Body(ML.Body):
                 and s.targets[0].elts and all(isinstance(t, ast.Subscript) for t in s.targets[0].elts):
             return self.dict_store_tuple(s, env, cont)
         if isinstance(s, ast.Assign) and len(s.targets) == 1 and isinstance(s.targets[0], ast.Subscript) \
-                and isinstance(s.targets[0].value, ast.Name) and env.get(s.targets[0].value.id, (None,))[0] == DICTA:
+                and isinstance(s.targets[0].value, ast.Name) and env.get(s.targets[0].value.id, (None,))[0] in (DICTA, DICTV):
             return self.dict_store(s, env, cont)
         if isinstance(s, (ast.Assign, ast.AugAssign)):
             for n in assigned_names([s]):
@@ -242,7 +252,13 @@ class Body(ML.Body):
             raise Unsupported("exception message that is not a string literal / f-string", s)
         return self.bind_lines(binds) + ["throw PyErr.%s" % EXC[x.func.id]]
 
-    def score_term(self, v, node):
+    def score_term(self, v, node, dt=DICTA):
+        if dt == DICTV:
+            if v.ty in NUMERIC:
+                return "(Mir.PyAl.SVal.num %s)" % coerce(v, NUM, node)
+            if v.ty == BOOL:
+                return "(Mir.PyAl.SVal.bool %s)" % v.term
+            raise Unsupported("a dict value of type %s" % show_type(v.ty), node)
         if v.ty == ATR:
             return "(Mir.PyAl.Score.tr %s)" % v.term
         if v.ty in NUMERIC:
@@ -250,7 +266,7 @@ class Body(ML.Body):
         raise Unsupported("a dict value of type %s" % show_type(v.ty), node)
 
     def dict_key(self, t, env, s):
-        if not (isinstance(t.value, ast.Name) and t.value.id in env and env[t.value.id][0] in (DICT, DICTA)):
+        if not (isinstance(t.value, ast.Name) and t.value.id in env and env[t.value.id][0] in (DICT, DICTA, DICTV)):
             raise Unsupported("item assignment to anything but the score dictionary", s)
         x = t.value.id
         key = t.slice
@@ -264,12 +280,13 @@ class Body(ML.Body):
 
     def dict_store(self, s, env, cont):
         t = s.targets[0]
-        if env[t.value.id][0] != DICTA:
+        dt = env[t.value.id][0]
+        if dt not in (DICTA, DICTV):
             return ML.Body.dict_store(self, s, env, cont)
         x, key = self.dict_key(t, env, s)
         binds = []
         v = self.expr(s.value, env, binds)
-        line = "let %s : %s := (%s ++ [(\"%s\", %s)])" % (ident(x), lean_type(DICTA), ident(x), key, self.score_term(v, s))
+        line = "let %s : %s := (%s ++ [(\"%s\", %s)])" % (ident(x), lean_type(dt), ident(x), key, self.score_term(v, s, dt))
         return self.bind_lines(binds) + [line] + cont(dict(env))
 
     def dict_store_tuple(self, s, env, cont):
@@ -288,8 +305,8 @@ class Body(ML.Body):
             else:
                 comp = E("(%s%s%s)" % (v.term, "".join(".2" for _ in range(i)), ".1" if i < n - 1 else ""), v.ty[1][i])
             dt = env[x][0]
-            if dt == DICTA:
-                item = self.score_term(comp, s)
+            if dt in (DICTA, DICTV):
+                item = self.score_term(comp, s, dt)
             else:
                 if comp.ty not in NUMERIC:
                     raise Unsupported("a dict value of type %s" % show_type(comp.ty), s)
@@ -445,9 +462,9 @@ class Body(ML.Body):
             return E("(%s)" % " ++ ".join(parts), FVEC)
         if name == "skewnorm.pdf":
             return self.skewnorm_pdf(node, env, binds)
-        if name == "collections.OrderedDict" and self.atr:
+        if name == "collections.OrderedDict" and self.dict_type() != DICT:
             ML.Body.call(self, node, env, binds)            # (the checks)
-            return E("([] : %s)" % lean_type(DICTA), DICTA)
+            return E("([] : %s)" % lean_type(self.dict_type()), self.dict_type())
         if name is not None and name.split(".")[0] in ("skewnorm", "scipy"):
             raise Unsupported("call of %s" % name, node)
         return ML.Body.call(self, node, env, binds)
@@ -513,6 +530,9 @@ class Body(ML.Body):
         return E(tmp, sig.ret, np=sig.ret_np)
 
 
+Module.BODY = Body
+
+
 # ----------------------------------------------------------------------------------------
 # a whole function
 
@@ -539,7 +559,7 @@ def translate_def(module, fn):
         params.append((p.arg, ty, d))
     body = [s for s in fn.body
             if not (isinstance(s, ast.Expr) and isinstance(s.value, ast.Constant) and isinstance(s.value.value, str))]
-    where = "`alignment.%s` (mir_eval/alignment.py)" % fn.name
+    where = "`%s.%s` (mir_eval/%s.py)" % (module.modname, fn.name, module.modname)
     kwp = []
     if a.kwarg:
         kwp = kwargs_params(module, fn)
@@ -549,7 +569,7 @@ def translate_def(module, fn):
                 raise Unsupported("keyword %s of **%s collides with a local" % (n, a.kwarg.arg), fn)
         where += "; **%s is read as the optional keyword(s) %s of the functions reached through filter_kwargs" % (
             a.kwarg.arg, ", ".join(n for n, _, _ in kwp))
-    return Body(module, fn, fn.name, params + kwp, body, what=where, kwparams=[n for n, _, _ in kwp]).translate()
+    return module.BODY(module, fn, fn.name, params + kwp, body, what=where, kwparams=[n for n, _, _ in kwp]).translate()
 
 
 def kwargs_params(module, fn):
@@ -557,7 +577,7 @@ def kwargs_params(module, fn):
     filter_kwargs beyond the positional arguments given there -> [(name, OPT type, None-default E)]"""
     kw = fn.args.kwarg.arg
     uses = [nd for nd in ast.walk(fn) if isinstance(nd, ast.Name) and nd.id == kw]
-    calls = [nd for nd in ast.walk(fn) if isinstance(nd, ast.Call) and dotted(nd.func) == "filter_kwargs"]
+    calls = [nd for nd in ast.walk(fn) if isinstance(nd, ast.Call) and dotted(nd.func) in module.FK_NAMES]
     starred = [k.value for c in calls for k in c.keywords if k.arg is None]
     if len(uses) != len(starred) or any(u not in starred for u in uses):
         raise Unsupported("**%s is used other than as filter_kwargs(f, ..., **%s)" % (kw, kw), fn)
